@@ -34,6 +34,10 @@ import (
 type skipRef struct {
 	Note  string              `json:"note"`
 	Sites map[string][]string `json:"sites"`
+	// Defined: the functions the reference tree defines (a callee that is not among them is a new helper)
+	Defined []string `json:"defined"`
+	// Vocab: per function the kinds (without sides) of all its branch conditions
+	Vocab map[string][]string `json:"vocab"`
 }
 
 var skipGroups = groupsOf([][]string{
@@ -94,6 +98,129 @@ func isLoopHeader(b *ssa.BasicBlock) bool {
 		}
 	}
 	return false
+}
+
+// condKindOnEdge: the kind of the condition together with what the edge means where that is
+// independent of how the condition is spelt: the error is nil / is set, the pointer is nil / is not,
+// the lookup succeeded / failed, the status code is / is not the one tested, the flag is up / down.
+// (Inverting a condition and swapping the branches leaves all of these unchanged.)
+func condKindOnEdge(cond ssa.Value, val bool) string {
+	c, v := cond, val
+	for {
+		if u, ok := c.(*ssa.UnOp); ok && u.Op == token.NOT {
+			c, v = u.X, !v
+			continue
+		}
+		break
+	}
+	k := condKind(c)
+	if x, nilWhenTrue, ok := nilTest(c); ok {
+		isNil := nilWhenTrue == v
+		if isErrorType(x.Type()) {
+			// whose error: the call it comes from (so that "some error was checked" is not mistaken for
+			// "the error of this step was checked")
+			who := ""
+			y := stripConv(x)
+			if u, ok := y.(*ssa.UnOp); ok && u.Op == token.MUL {
+				// a cell: the calls whose results are stored into it
+				if al, ok := u.X.(*ssa.Alloc); ok {
+					var names []string
+					for _, sv := range cellStores(al) {
+						if n := errOrigin(sv); n != "" {
+							names = append(names, n)
+						}
+					}
+					sort.Strings(names)
+					who = strings.Join(names, "+")
+				}
+			} else {
+				who = errOrigin(y)
+			}
+			if who != "" {
+				who = ":" + who
+			}
+			if isNil {
+				return "err-nil" + who
+			}
+			return "err-set" + who
+		}
+		if isNil {
+			return "nil-test:nil"
+		}
+		return "nil-test:set"
+	}
+	switch {
+	case k == "comma-ok", k == "flag", strings.HasPrefix(k, "flag:"), strings.HasPrefix(k, "call:"), strings.HasPrefix(k, "result:"), k == "extract":
+		if _, isCmp := c.(*ssa.BinOp); !isCmp {
+			if v {
+				return k + "=true"
+			}
+			return k + "=false"
+		}
+	case k == "status-code", k == "eof":
+		if bo, ok := c.(*ssa.BinOp); ok && (bo.Op == token.EQL || bo.Op == token.NEQ) {
+			if (bo.Op == token.EQL) == v {
+				return k + ":is"
+			}
+			return k + ":is-not"
+		}
+	}
+	return k
+}
+
+// condVocabulary: the kinds (sides stripped) of every branch condition of g.
+func condVocabulary(g *ssa.Function) []string {
+	set := map[string]bool{}
+	allInstrs(g, func(ins ssa.Instruction) {
+		if iff, ok := ins.(*ssa.If); ok {
+			if _, lowered := loweredBoolPhi(iff.Cond); lowered {
+				return
+			}
+			set[depolarise(condKindOnEdge(iff.Cond, true))] = true
+		}
+	})
+	return sortedKeys(set)
+}
+
+// depolarise strips what an edge means from a kind: which side of the condition, whose error.
+func depolarise(k string) string {
+	if strings.HasPrefix(k, "err-nil") || strings.HasPrefix(k, "err-set") {
+		return "err"
+	}
+	for _, suf := range []string{"=true", "=false", ":is-not", ":is", ":nil", ":set"} {
+		if strings.HasSuffix(k, suf) {
+			return strings.TrimSuffix(k, suf)
+		}
+	}
+	return k
+}
+
+// errOrigin: the callee whose error result v is ("" when v is not the result of a call).
+func errOrigin(v ssa.Value) string {
+	v = stripConv(v)
+	switch x := v.(type) {
+	case *ssa.Call:
+		return calleeName(x.Common())
+	case *ssa.Extract:
+		if cl, ok := x.Tuple.(*ssa.Call); ok {
+			return calleeName(cl.Common())
+		}
+	case *ssa.Phi:
+		var names []string
+		seen := map[string]bool{}
+		for _, e := range x.Edges {
+			if _, isPhi := e.(*ssa.Phi); isPhi {
+				continue
+			}
+			if n := errOrigin(e); n != "" && !seen[n] {
+				seen[n] = true
+				names = append(names, n)
+			}
+		}
+		sort.Strings(names)
+		return strings.Join(names, "+")
+	}
+	return ""
 }
 
 func condKind(cond ssa.Value) string {
@@ -228,7 +355,7 @@ func collectSkipSites(p *Program, pkgs []string) (map[string][]string, map[strin
 	poss := map[string]token.Pos{}
 	condPos := map[string]map[string]token.Pos{}
 	for _, rel := range pkgs {
-		for _, tf := range p.pkgFuncs(rel) {
+		for _, tf := range p.srcFuncs(rel) {
 			withAnon(tf, func(g *ssa.Function) {
 				fkey := refKey(g)
 				if fkey == "" {
@@ -263,6 +390,13 @@ func collectSkipSites(p *Program, pkgs []string) (map[string][]string, map[strin
 					case *ssa.Send:
 						base = fkey + "|send " + typeKey(x.Chan.Type())
 						sitePos, siteBlock = x.Pos(), x.Block()
+					case *ssa.Return:
+						// a way out of the function: a new kind of condition in front of one is a new fast path
+						base = fkey + "|return"
+						sitePos, siteBlock = x.Pos(), x.Block()
+						if !sitePos.IsValid() {
+							sitePos = g.Pos()
+						}
 					case *ssa.Call:
 						cl := x
 						sitePos, siteBlock = cl.Pos(), cl.Block()
@@ -282,8 +416,8 @@ func collectSkipSites(p *Program, pkgs []string) (map[string][]string, map[strin
 							case isErrorConstructor(sc):
 								// a rejection: a new condition around it means fewer requests are rejected
 								base = fkey + "|reject " + sc.Pkg.Pkg.Name() + "." + sc.Name()
-							case strings.HasPrefix(sc.Pkg.Pkg.Path(), modPath) && !pureLooking(sc.Name()):
-								// a function or method of the module that does something (not a getter)
+							case strings.HasPrefix(sc.Pkg.Pkg.Path(), modPath):
+								// a function or method of the module
 								short := sc.Name()
 								if r := sc.Signature.Recv(); r != nil {
 									rt := r.Type()
@@ -324,7 +458,7 @@ func collectSkipSites(p *Program, pkgs []string) (map[string][]string, map[strin
 								// form knows nothing there either
 								return true
 							}
-							k := condKind(cond)
+							k := condKindOnEdge(cond, val)
 							set[k] = true
 							if _, ok := cp[k]; !ok {
 								cp[k] = cond.Pos()
@@ -384,6 +518,20 @@ func genSkipReference(repo string) error {
 	}
 	sites, _, _ := collectSkipSites(p, allSkipPkgs())
 	ref := skipRef{Note: "kinds of branch conditions that dominate each call through a module interface on the reference tree (pinned tree + fix: commits); generated by `bbcheck -gen-reference`, never written by a check", Sites: sites}
+	for _, f := range p.Funcs {
+		ref.Defined = append(ref.Defined, FuncName(f))
+	}
+	sort.Strings(ref.Defined)
+	ref.Vocab = map[string][]string{}
+	for _, rel := range allSkipPkgs() {
+		for _, tf := range p.srcFuncs(rel) {
+			withAnon(tf, func(g *ssa.Function) {
+				if v := condVocabulary(g); len(v) > 0 {
+					ref.Vocab[FuncName(g)] = v
+				}
+			})
+		}
+	}
 	b, _ := json.MarshalIndent(ref, "", " ")
 	if err := os.MkdirAll(refDir, 0o755); err != nil {
 		return err
@@ -415,7 +563,7 @@ func runSkipCond(c *Ctx, pkgs []string) {
 		c.Broken("reference table of condition kinds cannot be read: %v", err)
 		return
 	}
-	alwaysOK := map[string]bool{"err-nil": true, "loop": true}
+	alwaysOK := map[string]bool{"err-nil": true, "err-set": true, "loop": true}
 	sites, poss, condPos := collectSkipSites(c.Program, pkgs)
 	var keys []string
 	for k := range sites {
@@ -443,25 +591,167 @@ func runSkipCond(c *Ctx, pkgs []string) {
 		bases = append(bases, b)
 	}
 	sort.Strings(bases)
-	covers := func(refKey, curKey string) bool {
+	refDefined := map[string]bool{}
+	for _, f := range ref.Defined {
+		refDefined[f] = true
+	}
+	curDefined := map[string]bool{}
+	for _, f := range c.Program.Funcs {
+		curDefined[FuncName(f)] = true
+	}
+	// excusedDrop: the error test of a callee is "gone" because the callee was inlined (it no longer
+	// exists) or is now made inside a helper that did not exist (whose error is tested instead)
+	excusedDrop := func(kind string, have map[string]bool) bool {
+		for _, pre := range []string{"err-nil:", "err-set:"} {
+			if !strings.HasPrefix(kind, pre) {
+				continue
+			}
+			for _, callee := range strings.Split(kind[len(pre):], "+") {
+				if !strings.HasPrefix(callee, "(") && !strings.Contains(callee, ".") {
+					continue
+				}
+				if !curDefined[callee] && refDefined[callee] {
+					return true // inlined
+				}
+			}
+			for h := range have {
+				if strings.HasPrefix(h, pre) {
+					for _, callee := range strings.Split(h[len(pre):], "+") {
+						if curDefined[callee] && !refDefined[callee] {
+							return true // tested through a new helper
+						}
+					}
+				}
+			}
+		}
+		return false
+	}
+	// strict: with as many sites as on the reference tree, a site must also still be guarded by
+	// every kind that guarded the reference site it is matched with (a dropped check)
+	coversMode := func(refKey, curKey string, strict bool) bool {
 		al := map[string]bool{}
 		for _, w := range ref.Sites[refKey] {
 			al[w] = true
 		}
-		for _, have := range sites[curKey] {
-			if !al[have] && !alwaysOK[have] {
+		have := map[string]bool{}
+		for _, h := range sites[curKey] {
+			have[h] = true
+			if !al[h] && !alwaysOK[h] && !strings.HasPrefix(h, "err-nil:") && !strings.HasPrefix(h, "err-set:") {
 				return false
+			}
+		}
+		if strict {
+			// only tests of a particular callee's error: other guards are regularly re-expressed (a
+			// switch whose earlier cases imply the condition) without the path changing
+			for w := range al {
+				if (strings.HasPrefix(w, "err-nil:") || strings.HasPrefix(w, "err-set:")) && !have[w] && !excusedDrop(w, have) {
+					return false
+				}
 			}
 		}
 		return true
 	}
+	// the strict direction is only meaningful while no helper was extracted from or inlined into the function
+	curSigs := map[string][]string{}
+	for _, rel := range pkgs {
+		for _, tf := range c.srcFuncs(rel) {
+			withAnon(tf, func(g *ssa.Function) {
+				if k := refKey(g); k != "" {
+					curSigs[k] = callSignature(g)
+				}
+			})
+		}
+	}
+	provR, _ := loadProvRef()
+	provRefDefined := map[string]bool{}
+	if provR != nil {
+		for _, id := range provR.Defined {
+			provRefDefined[id] = true
+		}
+	}
+	provCurDefined := definedCallees(c.Program)
+	gateOf := func(fk string) bool {
+		if provR == nil {
+			return false
+		}
+		rs, ok := provR.Sigs[fk]
+		if !ok {
+			return false
+		}
+		if strings.Join(rs, "|") == strings.Join(curSigs[fk], "|") {
+			return true
+		}
+		return gateOpen(rs, curSigs[fk], provRefDefined, provCurDefined)
+	}
+	inlinedInto := func(fk string) bool {
+		if provR == nil {
+			return false
+		}
+		rs, ok := provR.Sigs[fk]
+		if !ok {
+			return false
+		}
+		cur := map[string]bool{}
+		for _, e := range curSigs[fk] {
+			if i := strings.LastIndex(e, "×"); i >= 0 {
+				cur[e[:i]] = true
+			}
+		}
+		for _, e := range rs {
+			if i := strings.LastIndex(e, "×"); i >= 0 {
+				id := e[:i]
+				if strings.HasPrefix(id, "S:") && strings.Contains(id, modPath) && !cur[id] && !provCurDefined[id] {
+					return true
+				}
+			}
+		}
+		return false
+	}
+	strictMode := false
+	covers := func(refKey, curKey string) bool { return coversMode(refKey, curKey, strictMode) }
 	for _, b := range bases {
 		rks, cks := refBy[b], curBy[b]
 		if len(rks) == 0 {
 			continue // a new or moved kind of step: nothing to compare with
 		}
 		parts := strings.SplitN(b, "|", 2)
+		if inlinedInto(parts[0]) {
+			continue // a helper was inlined: its steps and their guards are new here, nothing to compare them with
+		}
+		if parts[1] == "return" {
+			// Ways out of the function are re-arranged freely (early returns, merged tails); what a
+			// refactoring does not do is decide about leaving on a kind of condition the function never
+			// looked at.  So: the kinds in front of a return – whichever side of them – must be kinds
+			// that guard some step of the function on the reference tree.
+			vocab := map[string]bool{}
+			for _, w := range ref.Vocab[parts[0]] {
+				vocab[w] = true
+			}
+			for k, kinds := range ref.Sites {
+				if strings.HasPrefix(k, parts[0]+"|") {
+					for _, w := range kinds {
+						vocab[depolarise(w)] = true
+					}
+				}
+			}
+			for _, ck := range cks {
+				ord := ck[strings.LastIndex(ck, "|")+1:]
+				var extra []string
+				for _, have := range sites[ck] {
+					if d := depolarise(have); !vocab[d] && d != "err" && d != "loop" {
+						extra = append(extra, have)
+					}
+				}
+				if len(extra) == 0 {
+					c.Pass(parts[0], "no-new-skip return#"+ord, c.Pos(poss[ck]), "left only on kinds of condition the function already decides on")
+					continue
+				}
+				c.Fail(parts[0], "no-new-skip return#"+ord, c.Pos(poss[ck]), fmt.Sprintf("the function now returns here on a kind of condition it does not look at anywhere on the reference tree (%s, at %s): a new fast path – whatever follows is skipped for the inputs that satisfy it", strings.Join(extra, ", "), c.Pos(condPos[ck][extra[0]])))
+			}
+			continue
+		}
 		unmatched := map[string]bool{}
+		strictMode = len(rks) == len(cks) && gateOf(parts[0])
 		if len(rks) == len(cks) {
 			// bipartite matching (augmenting paths; the sets are tiny)
 			matchOfRef := map[string]string{}
@@ -506,14 +796,18 @@ func runSkipCond(c *Ctx, pkgs []string) {
 			}
 			// what is new: a kind that guards no reference site of this step
 			anywhere := map[string]bool{}
+			everywhere := map[string]int{}
 			for _, rk := range rks {
 				for _, w := range ref.Sites[rk] {
 					anywhere[w] = true
+					everywhere[w]++
 				}
 			}
 			var extra []string
+			haveK := map[string]bool{}
 			for _, have := range sites[ck] {
-				if !anywhere[have] && !alwaysOK[have] {
+				haveK[have] = true
+				if !anywhere[have] && !alwaysOK[have] && !strings.HasPrefix(have, "err-nil:") && !strings.HasPrefix(have, "err-set:") {
 					extra = append(extra, have)
 				}
 			}
@@ -522,12 +816,28 @@ func runSkipCond(c *Ctx, pkgs []string) {
 				continue
 			}
 			if len(extra) == 0 {
+				// a dropped check: a kind that guards every reference site of this step and not this one
+				var dropped []string
+				for w, n := range everywhere {
+					if n == len(rks) && (strings.HasPrefix(w, "err-nil:") || strings.HasPrefix(w, "err-set:")) && !haveK[w] && !excusedDrop(w, haveK) {
+						dropped = append(dropped, w)
+					}
+				}
+				sort.Strings(dropped)
+				if len(dropped) > 0 {
+					c.Fail(parts[0], "no-new-skip "+parts[1]+"#"+ord, c.Pos(poss[ck]), fmt.Sprintf("the step `%s` is reached on the reference tree only under a condition of kind %s (for instance: only after the error was found nil, only when the lookup succeeded); now it is reached without that condition – a check was dropped, or the step moved in front of it", parts[1], strings.Join(dropped, ", ")))
+					continue
+				}
 				// every guard occurs at some reference site of this step, but more sites than before are
-				// guarded that way: with as many sites as on the reference tree, one of them became conditional
+				// guarded that way (or less): with as many sites as on the reference tree, one of them changed sides
 				for _, have := range sites[ck] {
-					if !alwaysOK[have] {
+					if !alwaysOK[have] && !strings.HasPrefix(have, "err-nil:") && !strings.HasPrefix(have, "err-set:") {
 						extra = append(extra, have)
 					}
+				}
+				if len(extra) == 0 {
+					c.Fail(parts[0], "no-new-skip "+parts[1]+"#"+ord, c.Pos(poss[ck]), fmt.Sprintf("the step `%s` is no longer guarded the way any of its %d occurrences is guarded on the reference tree: a check in front of it was dropped or replaced", parts[1], len(rks)))
+					continue
 				}
 			}
 			pos := condPos[ck][extra[0]]
